@@ -244,6 +244,14 @@ inline void hand_written(std::vector<Built>& out) {
         c.multicast_address_records(l);
         addc(out, "eth/ipv6/icmpv6 mld2 report[aux " + std::to_string(n) + "]/raw", eth() / ip6() / c / RawPDU(pattern(6, 0x38)));
     }
+    // MLDv2 records whose auxiliary data exceeds 255 bytes (Aux Data Len counts 32-bit words: up to 1020 bytes), first and last record
+    for (int n : {252, 256, 260, 1020}) {
+        ICMPv6 c(ICMPv6::MLD2_REPORT); ICMPv6::multicast_address_records_list l;
+        ICMPv6::multicast_address_record r; r.type = 2; r.multicast_address = "ff02::16"; r.aux_data = pattern(n, 0x36); l.push_back(r);
+        r.type = 1; r.sources.push_back("2001:db8::5"); r.aux_data = pattern(8, 0x37); l.push_back(r);
+        c.multicast_address_records(l);
+        addc(out, "eth/ipv6/icmpv6 mld2 report[big aux " + std::to_string(n) + "]", eth() / ip6() / c);
+    }
     // ---- large options / tags / records: length fields near and past one-octet limits
     { ICMPv6 c(ICMPv6::ROUTER_SOLICIT); c.source_link_layer_addr(MAC1); Bytes big = pattern(262, 0x21); c.add_option(ICMPv6::option(253, big.begin(), big.end())); c.mtu(ICMPv6::mtu_type(0, 1280));
       addc(out, "eth/ipv6/icmpv6 rs[slla,opt264,mtu]", eth() / ip6() / c); }
